@@ -11,6 +11,7 @@ type MustacheTokenizer struct {
 	special      bool
 	specialState tokenizers.ITokenizerState
 	reader       io.IScanner
+	readerSerial int
 }
 
 func NewMustacheTokenizer() *MustacheTokenizer {
@@ -59,9 +60,10 @@ func (c *MustacheTokenizer) ReadNextToken() *tokenizers.Token {
 	}
 
 	// Check for initial state
-	// A new reader starts in text mode
-	if c.Scanner != c.reader {
+	// A new reader starts in text mode, and so does one that is attached again
+	if c.Scanner != c.reader || c.ReaderSerial != c.readerSerial {
 		c.reader = c.Scanner
+		c.readerSerial = c.ReaderSerial
 		c.special = true
 	}
 
